@@ -42,6 +42,7 @@ class Ctx:
         self._cfgs = {}
         self.obligations = []
         self.floors = {}
+        self.errors = []
         self.notes = []
         self.consulted = set()
         self.paths_enumerated = 0
@@ -96,10 +97,27 @@ class Ctx:
         return self.bad(rule, construct, why_bad, witness, loc)
 
     def floor(self, rule, expected_min, inspected):
+        '''Instance floor: a rule that inspects fewer sites than were confirmed by reading no longer
+        understands the tree.  Recorded, not raised: if the run also finds violations they are the
+        verdict (a construct that vanished is usually the violation itself); otherwise the run ends
+        as an analysis error.'''
+        inspected = inspected or 0
         self.floors[rule] = {'expected_min': expected_min, 'inspected': inspected}
         if inspected < expected_min:
-            raise AnalysisError(f'rule {rule} inspected {inspected} sites, fewer than the {expected_min} '
-                                f'confirmed by reading: the rule no longer understands this tree')
+            self.errors.append(f'rule {rule} inspected {inspected} sites, fewer than the {expected_min} '
+                               f'confirmed by reading: the rule no longer understands this tree')
+
+    def rule(self, name, fn, floor=None):
+        '''Run one rule function in isolation: an AnalysisError inside it is recorded and the other
+        rules still run.'''
+        try:
+            n = fn()
+        except AnalysisError as e:
+            self.errors.append(f'rule {name}: {e}')
+            return None
+        if floor is not None:
+            self.floor(name, floor, n if isinstance(n, int) else (n[0] if isinstance(n, tuple) else 0))
+        return n
 
     def note(self, text):
         self.notes.append(text)
@@ -188,6 +206,7 @@ def write_evidence(ctx, explanation, assumptions, wall_s, seed, extra=None, viol
         'path_obligation_evaluations': ctx.path_evals,
         'known_findings': [dict(k) for k in known],
         'notes': ctx.notes,
+        'analysis_errors': list(ctx.errors),
         'digests': ctx.repo.digests(sorted(ctx.consulted)),
         'checker_cmd': f'./check {ctx.prop} --tier {ctx.tier}',
         'trusted_base': ['CPython ast', 'networkx dominators', 'the sa/ engine and its validated resolver tables'],
